@@ -9,6 +9,7 @@ import (
 	"context"
 	"fmt"
 	"net"
+	"os"
 	"runtime/debug"
 	"strings"
 	"sync"
@@ -87,6 +88,7 @@ type AttemptResult struct {
 	EarlyDelivery string
 	DumpServed    Pos
 	PoisonDelivered bool // the whole column-count-change unit (C15) reached the client
+	StepCapped      bool // harness step budget exhausted while progress was still being made
 }
 
 // Run is the mutable state of one simulated run.
@@ -346,6 +348,10 @@ func (r *Run) dsn() string {
 
 var runCounter int
 
+// traceSteps adds one trace line per controller step (VSIM_TRACE_STEPS=1).
+var traceSteps = os.Getenv("VSIM_TRACE_STEPS") == "1"
+
+
 // Execute runs the scenario inside a synctest bubble and returns the run.
 func Execute(t *testing.T, sc *Scenario, tape *Tape) (r *Run) {
 	initEnv()
@@ -525,6 +531,10 @@ func (r *Run) segment(plan *AttemptPlan, avail int, dumping bool) int {
 			n = toEnd
 		}
 	}
+	if avail > 1<<16 && n < avail/64 {
+		// large backlogs (jumbo events, wide rows): keep the number of steps bounded
+		n = avail / 64
+	}
 	if n > avail {
 		n = avail
 	}
@@ -556,6 +566,9 @@ func (r *Run) commitsDelivered() int {
 // run must not continue (hang or harness trouble).
 func (r *Run) runAttempt(idx int, plan AttemptPlan) bool {
 	sc := r.sc
+	// one schedule stream per attempt: a divergence in the tail of one attempt
+	// (teardown races inside the driver) must not shift the choices of the next
+	r.sch = r.tape.S(fmt.Sprintf("sched%d", idx))
 	att := &AttemptResult{Plan: plan}
 	r.Results = append(r.Results, att)
 	r.mu.Lock()
@@ -649,8 +662,9 @@ func (r *Run) runAttempt(idx int, plan AttemptPlan) bool {
 			break
 		}
 		if att.Steps > sc.StepCap {
-			att.Hang = true
-			att.HangDump = probeGoroutines()
+			// the harness ran out of steps while the system was still making
+			// progress: inconclusive, never a violation
+			att.StepCapped = true
 			r.logf("step cap reached")
 			r.abortAttempt()
 			return false
@@ -667,6 +681,13 @@ func (r *Run) runAttempt(idx int, plan AttemptPlan) bool {
 			wire = conn.wireLen()
 		}
 
+		if traceSteps {
+			rd := false
+			if conn != nil {
+				rd = conn.isReading()
+			}
+			r.logf("state: handler-parked=%v mapper-parked=%v wire=%d reading=%v logs=%d dumping=%v fired=%v calls=%d", h != nil, m != nil, wire, rd, r.parkedLogCount(), dumping, causeFired, len(att.Calls))
+		}
 		// in-run invariant (C02): a delivery never precedes its commit packet
 		if dumping && att.EarlyDelivery == "" {
 			served := 0
@@ -878,7 +899,9 @@ func (r *Run) runAttempt(idx int, plan AttemptPlan) bool {
 			case 2:
 				r.releaseMapper(mapperVerdict{})
 			case 3:
-				r.releaseLog(r.sch.N(nLogs))
+				// all at once and without a tape draw: how many goroutines sit in the
+				// logger during teardown depends on the driver's Close-vs-reader race
+				r.releaseAllLogs()
 			}
 			continue
 		}
